@@ -254,7 +254,7 @@ def run_case(contract_id, case, props, tier="quick", seed=0, diff=True):
                     continue
                 r = discharge.check(cl.hyps + [z3.Not(cl.goal)], 30)
                 report["solver_time_s"] += r["time_s"]
-                report["obligations"].append({"id": oid0(cl.name, prop), "prop": prop, "kind": cl.kind, "path": 0, "bounded": cl.bounded or contract.bounded or "native grid", "status": "discharged" if r["answer"] == "unsat" else ("unknown" if (r["answer"] != "sat" or getattr(cl, "undecided_if_false", False)) else "refuted"), "clause": cl.name, "params": {}, "schedule": {}, "note": cl.note, "raised": None, "regions": {}, "backend": r["backend"]})
+                report["obligations"].append({"id": oid0(cl.name, prop), "prop": prop, "kind": cl.kind, "path": 0, "bounded": (cl.bounded if cl.bounded is not None else (contract.bounded if contract.bounded is not None else "native grid")), "status": "discharged" if r["answer"] == "unsat" else ("unknown" if (r["answer"] != "sat" or getattr(cl, "undecided_if_false", False)) else "refuted"), "clause": cl.name, "params": {}, "schedule": {}, "note": cl.note, "raised": None, "regions": {}, "backend": r["backend"]})
         report["diff_points"] = 1
         return report
     try:
@@ -380,6 +380,13 @@ def _discharge_clause(report, contract, case, path, P, pc, cl, props, oid, timeo
                 continue
         r = discharge.check(pc + cl.hyps + [z3.Not(cl.goal)], timeout, cross=cross, seed=seed)
         report["solver_time_s"] += r["time_s"]
+        if not any("smt2_head" in o for o in report["obligations"]):
+            try:
+                txt = discharge.smt2_text(pc + cl.hyps + [z3.Not(cl.goal)])
+                ob["smt2_head"] = txt[:900] + (" ..." if len(txt) > 900 else "")
+                ob["smt2_chars"] = len(txt)
+            except Exception:  # noqa
+                pass
         ob["backend"] = r["backend"]
         ob["time_s"] = round(r["time_s"], 4)
         if r["answer"] == "unsat":
